@@ -94,7 +94,7 @@ def store_summary(b):
 
 def run(facts):
     r = RuleResult("SIBLING", "Graph's and StableGraph's twin implementations of the adjacency-list iterators access the direction-indexed fields "
-                              "next[i] / node[i] with the same constant indices the same number of times, and neighbors_directed performs the "
+                              "next[i] / node[i] with the same set of constant indices (the same slots are read and written), and neighbors_directed performs the "
                               "same stores on the iterator under the same is_directed() guard")
     G, S = {}, {}
     for b in facts.bodies:
@@ -110,10 +110,11 @@ def run(facts):
             r.bad(Violation("SIBLING", key, "anchor-missing", G_FILE, 0, "sibling pair %s not found in both files - fail closed" % key))
             continue
         a, c = const_index_accesses(g), const_index_accesses(s)
-        if a == c and a:
+        # compare WHICH (field, index, r/w) accesses occur, not how often: reading a slot once into a temporary instead of twice is the same code
+        if set(a) == set(c) and a:
             r.ok(key, "index-accesses", "both: %s (%s)" % (dict(a), why))
         else:
-            diff = {k: (a.get(k, 0), c.get(k, 0)) for k in set(a) | set(c) if a.get(k, 0) != c.get(k, 0)}
+            diff = {k: (a.get(k, 0), c.get(k, 0)) for k in set(a) ^ set(c)}
             r.bad(Violation("SIBLING", s.npath, "index-accesses", s.file, s.line,
                             "%s: Graph's and StableGraph's implementations access next[]/node[] differently: (field, index, r/w) -> "
                             "(Graph count, StableGraph count) %s. %s" % (key, diff, why), {"graph": str(dict(a)), "stable": str(dict(c))}))
